@@ -335,3 +335,24 @@ Proof.
   exact (accepted_sound is_tight has_private_recursion tau_star_total completion (simp_classic_total fuel)
            substitute_sem t w pbs Ht Hc).
 Qed.
+
+(* ---------- the clash premise is decidable on the assembled task ---------- *)
+Definition flist_no_clashb (fs : list formula) : bool :=
+  forallb (fun f => forallb (fun s => forallb (fun g => negb (memb pred_dec (mkpred s 0) (predicates g))) fs)
+                            (symbols f)) fs.
+Lemma flist_no_clashb_ok fs : flist_no_clashb fs = true -> flist_no_clash fs.
+Proof.
+  unfold flist_no_clashb, flist_no_clash. rewrite forallb_forall. intros H f g s Hf Hg Hs Hin.
+  specialize (H f Hf). rewrite forallb_forall in H. specialize (H s Hs). rewrite forallb_forall in H.
+  specialize (H g Hg). destruct (memb_spec pred_dec (mkpred s 0) (predicates g)); [discriminate|contradiction].
+Qed.
+Definition validated_no_clashb (vt : validated_task) : bool :=
+  match validated_assemble vt with
+  | Some (_, a) => flist_no_clashb (at_formulas a)
+  | None => true
+  end.
+Lemma validated_no_clashb_ok vt : validated_no_clashb vt = true -> validated_no_clash vt.
+Proof.
+  unfold validated_no_clashb, validated_no_clash, assembled_no_clash. intros H w a E. rewrite E in H.
+  apply flist_no_clashb_ok, H.
+Qed.
